@@ -43,6 +43,8 @@ func (s c07Strategy) Sign(data []byte) ([]byte, error) {
 		return ed25519.Sign(s.priv, append(append([]byte{}, data...), 'x')), nil
 	case "shortsig":
 		return ed25519.Sign(s.priv, data)[:63], nil
+	case "longsig":
+		return append(ed25519.Sign(s.priv, data), '\n'), nil
 	}
 	return ed25519.Sign(s.priv, data), nil
 }
